@@ -89,7 +89,7 @@ function genStmt (rng, ctx, nest, label) {
     case 8: return { t: 'try', body: genBlock(rng, ctx, nest - 1, 'try'), handler: genBlock(rng, ctx, nest - 1, 'catch'), finalizer: rng.chance(1, 2) ? genBlock(rng, ctx, nest - 1, 'finally') : null }
     case 9: return { t: 'nested', f: genFunc(rng, P, ctx.depth + 1, rng.pick(['decl', 'arrowBlock', 'arrowExpr', 'gen', 'async', 'class', 'objlit', P.known ? 'decl-default' : 'arrow-default'])) }
     case 10: return { t: 'block', labelled: rng.chance(1, 3), body: genBlock(rng, ctx, nest - 1, label) }
-    case 11: return { t: 'addassign', target: rng.pick(['local', 'member']), e: genOpExpr(rng, ctx, 1, label, true), id: P.nextOp++ }
+    case 11: return { t: 'addassign', target: rng.pick(['local', 'local', 'member', 'member', 'call-member', 'call-computed', 'computed-key-call']), e: genOpExpr(rng, ctx, 1, label, true), id: P.nextOp++ }
     case 13: return { t: 'dowhile', n: rng.range(0, 1), v: fresh(P, 'd'), c: genOpExpr(rng, ctx, 1, 'loop-head'), body: genBlock(rng, { ...ctx, loop: ctx.loop + 1 }, nest - 1, 'loop-body') }
     case 14: return { t: 'forin', v: fresh(P, 'k'), body: genBlock(rng, { ...ctx, loop: ctx.loop + 1 }, nest - 1, 'loop-body') }
     case 15: return { t: 'switchlex', v: fresh(P, 'v'), c: genOpExpr(rng, ctx, 1, 'switch-discriminant'), e1: genOpExpr(rng, ctx, 1, 'switch-case-clause'), e2: genOpExpr(rng, ctx, 1, 'switch-case-clause') }
@@ -357,7 +357,9 @@ function render (P) {
         overflow = false
         const aalts = altsOf(s.e)
         regAlts(s.id, 'plusOperator', aalts, s.e.label, true)
-        if (s.target === 'local') emit(`acc += ${rhs};`); else emit(`box.x += ${rhs};`)
+        // targets whose object or key is itself a call ($.n is the identity, pure: evaluating it twice is harmless)
+        const TARGETS = { local: 'acc', member: 'box.x', 'call-member': '$.n(box).x', 'call-computed': "$.n(box)[$.n('x')]", 'computed-key-call': "box[$.n('x')]" }
+        emit(`${TARGETS[s.target] || 'acc'} += ${rhs};`)
         break
       }
       case 'nested': func(s.f, true); break
